@@ -649,7 +649,11 @@ func newUniverse(r *core.R) *universe {
 					// the second variant re-addresses both families at once; a third keeps IPv4 and moves IPv6 only
 					ip6 = host6[h][vi]
 				}
-				e.variants = append(e.variants, variant{desc: ip + " " + ip6, mk: func() interface{} {
+				dOf := 0
+				if vi == 1 && dualStack {
+					dOf = 1 // re-addressing both families at once, applied in isolation by the tail delta steps
+				}
+				e.variants = append(e.variants, variant{desc: ip + " " + ip6, deltaOf: dOf, mk: func() interface{} {
 					n := &internalapi.Node{ObjectMeta: metav1.ObjectMeta{Name: hc}, Spec: internalapi.NodeSpec{BGP: &internalapi.NodeBGPSpec{IPv4Address: ipc + "/24"}}}
 					if ip6 != "" {
 						n.Spec.BGP.IPv6Address = ip6 + "/64"
